@@ -190,12 +190,12 @@ ROWS = {
        'order, M = 0, None) and round() hand-written in Model/Sensor.lean, tied by the differential run',
   tech='Lean 4 proof (field arithmetic over Rat, case analysis on formats, definitional equality with AST-generated expressions) + AST expression translator + differential correspondence'),
  'C18': dict(
-  text='Lean theorems: parse(encode image) = image for every well-formed HPM.1 image (header, components, every action '
+  text='19 Lean theorems: parse(encode image) = image for every well-formed HPM.1 image (header, components, every action '
        'record with exactly its firmware bytes), and for every binary, block size and device behaviour the upload '
        'sends the bytes once, in order, in blocks <= block size numbered mod 256 from 0, polls status after '
-       '"long duration in progress", aborts with HpmError on any other code. Offsets, lengths, block size, masks and '
+       '"long duration in progress" and goes on only when the status reports 00h (a final failure code or 80h still pending at the time-out stops the upload with HpmError, no further block: upload_stops, upload_aborts_long_failure, upload_aborts_long_timeout), aborts with HpmError on any other code; OEM header data 0..255 bytes incl. the empty one. Offsets, lengths, block size, masks and '
        'codes are regenerated from hpm.py on every run (fail closed).',
-  note='translator harness/translate/hpm.py; virtual clock; MD5 trailer is a parameter; tie by differential run with an '
+  note='translator harness/translate/hpm.py; virtual clock; MD5 trailer is a parameter; three parser flags and one upload flag (as shipped / intended) probed on the real code, counter-example theorems for the as-shipped ones; reference device whose long duration commands end with a final code reported in Get Upgrade Status; time-outs of a block are outside the quantifier (observation); tie by differential run with an '
        'independent image encoder cross-checked against the Lean encoder; histories of 2..5 images written and parsed in one process (same path / same size / pinned mtime / other paths, through UpgradeImage, Hpm.open_upgrade_image and get_upgrade_version_from_file), each run in a pristine forked child (harness/sim/pristine.py), kept results re-read at the end',
   tech='Lean 4 proof (parser inversion; upload-loop invariant: sent = prefix of binary) + translator + differential correspondence'),
  'C19': dict(
@@ -207,12 +207,12 @@ ROWS = {
        'command line through an argv-printing stub; ipmitool output format taken from its sources; histories of 2..4 calls on ONE Ipmitool object with credentials / host / privilege / session changed in between, each call judged against the argument vector its CURRENT settings demand (pristine child per history)',
   tech='Lean 4 proof (shell-quoting inertness by induction on the string; printer/parser inversion) + translator + correspondence through the real shell'),
  'C20': dict(
-  text='Lean theorems over the command table regenerated from pyipmi/ipmitool.py: every entry resolves to an existing '
+  text='41 Lean theorems over the command table regenerated from pyipmi/ipmitool.py: every entry resolves to an existing '
        'operation with an acceptable arity (kernel-decided over the whole generated table), chassis power sub-commands '
        'map to distinct option codes, longest-prefix lookup is correct, getopt separates options as given, raw '
-       'sends/prints exactly, errors exit non-zero. Tie: main() run in-process for every entry against the direct API '
+       'sends/prints exactly; every class of pyipmi.errors and a socket time-out, raised by open, a request or close, ends main() with a message and status 1 (error_classes_complete, all_errors_exit_nonzero, main_reports_every_failure); numeric arguments are accepted in decimal and hex at every converting position; the printing handlers raise no Python error on a link-less channel, every SDR type of IPMI ch. 43, sensors flagged unavailable and raw values outside the domain of a non-linear function; as-shipped counter-example theorems for each. Tie: main() run in-process for every entry against the direct API '
        'call on an identical BMC stub.',
-  note='translator harness/translate/cli.py; getopt/int(s,0) modelled in Lean and tied to CPython by the run; "completes '
+  note='translator harness/translate/cli.py (also reads the except clauses and where close() sits, the classes of errors.py, every int(args[k][, 0]), the handler guards and caught classes, the SDR class table; the hypotheses exitsCover, closeInside, base10Args = [] and the handler guards are evaluated on today's source by the driver's probe on every run); getopt/int(s,0) modelled in Lean and tied to CPython by the run; stub BMC profiles full / minimal / plain / sdrtypes / nonlinear / unavailable with an HPM.1 upgrade agent; a traceback is not counted as a message; "completes '
        'without a Python error" is checked per entry on the stub profiles (a Python error on a fault-free run is a violation), not proved; histories of 2..4 consecutive main() runs in one process with every option given in one run and absent in the next: each run must equal the same run alone in a new process',
   tech='Lean 4 proof (decide +kernel over generated table; lookup/getopt lemmas) + translator + differential correspondence (CLI vs API)'),
  'C07': dict(
@@ -233,7 +233,7 @@ ROWS = {
        'owned by other properties (SDR, SEL, FRU, HPM upgrade, DCMI, raw) are exercised-only or not exercised here',
   tech='Lean 4 proof (symbolic evaluation of each exchange, induction over histories, decide +kernel over generated tables) + translators + closed-loop history correspondence against the Lean reference BMC'),
  'C08': dict(
-  text='56 Lean theorems over interaction programs: every one of the 145 public operations of pyipmi.Ipmi is covered '
+  text='62 Lean theorems over interaction programs: every one of the 145 public operations of pyipmi.Ipmi is covered '
        '(kernel-decided table_covered over the table regenerated from the AST of every public method): 108 by the '
        'skeleton theorems (every resolution, one fault and ANY fault set), 9 leaves by handler-model theorems at full '
        'strength (any request position, any code 01h..FFh, any fault set: read_fru_data, the *_and_wait polls, '
@@ -241,13 +241,13 @@ ROWS = {
        'composition_fault_safe / composition_multi_safe (SEL/SDR listings and FRU area reads also instantiated), 3 '
        'primitives and 4 transport operations listed with their reason: a non-OK completion code yields '
        'CompletionCodeError with that code / RetryError / HpmError or - where the handler retries or adapts - the '
-       'fault-free result; never another value, never default-initialised data. Tie and residue: every public '
+       'fault-free result; never another value, never default-initialised data; an HPM.1 operation answered 80h completes only if the polled Get Upgrade Status reports 00h - a final failure code or 80h still pending at the time-out is HpmError (hpm_long_outcome_never_mistaken, upload_binary_long_outcome_never_mistaken under any fault set; as-shipped counter-examples). Tie and residue: every public '
        'method x every request position x completion-code alphabet (thorough: all 255 codes), model-vs-code on '
        'outcome, bytes and request trace for the modelled handlers.',
   note='translator harness/translate/api.py (skeletons, shape classes; loops10/loops11 extractors for constants); Prog '
        'models hand-written and tied by the correspondence run; device hypotheses of the leaf theorems (consistent '
        'FRU/SEL/SDR storage, HPM action and status succeed fault-free) are assumed at every leaf a composition '
-       'reaches; get_sel_entry admits at most 16 answers CAh per fault set; stateless scripted BMC; virtual clock',
+       'reaches; get_sel_entry admits at most 16 answers CAh per fault set; stateless scripted BMC with device variants (busy / failing long duration commands: the status script ends 00h, 80h for ever or 82h); virtual clock',
   tech='Lean 4 proof (fault-safety of interaction programs closed under bind, induction on budgets, decide +kernel over the generated table) + AST translator + exhaustive fault enumeration and model-vs-code trace comparison on the real code'),
 }
 
